@@ -1,7 +1,11 @@
 """Glue: the RAM program dumped by hook H3 (JSON) -> the TLA+ value RamProg read by spec/Ram.tla.
 Operator enumerators are dumped as integers; their names are read from the enum declarations in /repo's headers at
 run time.  Nothing is evaluated here: wrappers without effect on relations are peeled, unsupported constructs are
-reported so that the caller can leave the program out (counted in evidence)."""
+reported so that the caller can leave the program out (counted in evidence).
+Records/ADTs: PackRecord/UnpackRecord are passed on as they are; the type table RamProg.types is copied from the `types`
+directive the REAL IO statements carry (what souffle's ReadStream/WriteStream decode with: record name -> field types,
+ADT name -> enum flag + branches in branch-id order); a record/ADT attribute keeps its qualifier ("r:Pr", "+:Tr"),
+a primitive one is reduced to its kind letter ("i", "u", "s")."""
 import json, os, re
 from .common import REPO
 
@@ -50,6 +54,8 @@ def _expr(e):
         if op not in SUPPORTED_FUNCTORS:
             raise Unsupported("functor " + op)
         return {"k": k, "op": op, "args": [_expr(a) for a in e["args"]]}
+    if k == "PackRecord":
+        return {"k": k, "args": [_expr(a) for a in e["args"]]}
     raise Unsupported("expression " + k)
 
 def _cond(c):
@@ -92,6 +98,8 @@ def _op(o):
         if o["fn"] != "RANGE":
             raise Unsupported("generator " + o["fn"])
         return {"k": k, "id": o["id"], "args": [_expr(a) for a in o["args"]], "body": _op(o["body"])}
+    if k == "UnpackRecord":
+        return {"k": k, "id": o["id"], "arity": o["arity"], "expr": _expr(o["expr"]), "body": _op(o["body"])}
     if k in ("Filter", "Break"):
         return {"k": k, "cond": _cond(o["cond"]), "body": _op(o["body"])}
     if k in ("Insert", "Erase"):
@@ -137,15 +145,64 @@ def _stmt(s):
         return {"k": k, "sid": s["sid"], "var": s["var"], "value": _expr(s["value"])}
     raise Unsupported("statement " + k)
 
+def _io_types(j):
+    """the `types` directive of the first IO statement (all IO statements of a program carry the same ADT/record tables)"""
+    found = []
+    def walk(n):
+        if found:
+            return
+        if isinstance(n, dict):
+            if n.get("k") == "IO" and "types" in n.get("directives", {}):
+                found.append(json.loads(n["directives"]["types"])); return
+            for v in n.values():
+                walk(v)
+        elif isinstance(n, list):
+            for v in n:
+                walk(v)
+    walk(j["main"]); walk(j["subroutines"])
+    return found[0] if found else {}
+
+class _Types:
+    """the part of the type table reachable from the relations' attributes"""
+    def __init__(self, io):
+        self.io_records = io.get("records", {}); self.io_adts = io.get("ADTs", {})
+        self.records = {}; self.adts = {}
+    def attr(self, t):
+        """attribute type string of the dump ("i:number", "r:Pr", "+:Tr") -> attribute type of RamProg"""
+        kind = t.split(":")[0]
+        if kind in ("i", "u", "s"):
+            return kind
+        if kind == "r":
+            if t not in self.records:
+                info = self.io_records.get(t)
+                if info is None:
+                    raise Unsupported("record type %s without IO type information" % t)
+                self.records[t] = None          # (recursive types)
+                self.records[t] = [self.attr(x) for x in info["types"]]
+            return t
+        if kind == "+":
+            if t not in self.adts:
+                info = self.io_adts.get(t)
+                if info is None:
+                    raise Unsupported("ADT %s without IO type information" % t)
+                self.adts[t] = None
+                brs = [{"name": b["name"], "types": [self.attr(x) for x in b["types"]]} for b in info["branches"]]
+                # the payload of a one-argument branch is stored unboxed next to the branch id ([id, arg]) and the
+                # translator compares it with constants BEFORE the branch id is tested: a symbol payload would meet the
+                # numbers of the other branches there, which TLC cannot compare with a string
+                if not info["enum"] and any(b["types"] == ["s"] for b in brs):
+                    raise Unsupported("ADT branch with a single symbol argument")
+                self.adts[t] = {"enum": bool(info["enum"]), "branches": brs}
+            return t
+        raise Unsupported("attribute type " + kind)
+
 def convert(path):
     """-> RamProg value (python dict).  Raises Unsupported with the first construct outside spec/Ram.tla."""
     j = json.load(open(path))
     rels = []
+    types = _Types(_io_types(j))
     for r in j["relations"]:
-        ts = [t.split(":")[0] for t in r["attrTypes"]]
-        for t in ts:
-            if t not in ("i", "u", "s"):
-                raise Unsupported("attribute type " + t)
+        ts = [types.attr(t) for t in r["attrTypes"]]
         if r["aux"] != 0:
             raise Unsupported("auxiliary attributes (provenance)")
         rels.append({"name": r["name"], "arity": r["arity"], "repr": r["repr"], "attrTypes": ts})
@@ -156,7 +213,7 @@ def convert(path):
         # the engine registers subroutine X as "stratum_X" (Engine.cpp generateIR) and CALL statements use that name
         name = "stratum_" + name
         subs[name] = b if b is not None else {"k": "Seq", "sid": -1, "stmts": []}
-    return {"relations": rels, "main": main, "subroutines": subs}
+    return {"relations": rels, "main": main, "subroutines": subs, "types": {"records": types.records, "adts": types.adts}}
 
 def stored_relations(RP):
     """relations written by an output/printsize IO statement (generated C++ never clears them)"""
